@@ -191,3 +191,20 @@ def goal_is_ring_identity(goal):
         if z3.is_arith(a):
             return is_zero_diff(a, b)
     return False
+
+
+def to_z3(p):
+    """rebuild a z3 Real term from a canonical polynomial"""
+    terms = []
+    for m, c in sorted(p.items(), key=lambda kv: repr(kv[0])):
+        t = z3.RealVal(str(c))
+        for i, e in m:
+            a = _ATOMS[i]
+            if z3.is_int(a):
+                a = z3.ToReal(a)
+            for _ in range(abs(e)):
+                t = t * a if e > 0 else t / a
+        terms.append(t)
+    if not terms:
+        return z3.RealVal(0)
+    return z3.Sum(terms) if len(terms) > 1 else terms[0]
